@@ -27,6 +27,11 @@ type C02Case struct {
 	Method   string     `json:"method"`
 	C14N     string     `json:"c14n"`
 	Encoded  string     `json:"encoded"`
+	// BigFirst (kind "dup"): the well-signed FIRST assertion carries this many attribute values and, with EncFirst,
+	// travels encrypted — more elements than the signature library's traversal budget (1000) once decrypted.
+	// Whatever the library does with such a tree, the bad signature of the assertion after it stays fatal.
+	BigFirst int  `json:"bigFirst,omitempty"`
+	EncFirst bool `json:"encFirst,omitempty"`
 }
 
 var clockPositions = []string{"nb-1s", "nb-1ns", "nb", "inside", "na", "na+1ns", "na+1s"}
@@ -163,6 +168,10 @@ func genC02(t *rapid.T) C02Case {
 		}
 	}
 	c.SP.Store = store
+	if c.Kind == "dup" && rapid.IntRange(0, 2).Draw(t, "bigFirst") == 0 {
+		c.BigFirst = rapid.SampledFrom([]int{300, 520, 980, 1010, 1300}).Draw(t, "bigFirstN")
+		c.EncFirst = rapid.IntRange(0, 3).Draw(t, "encFirst") != 0
+	}
 	finishC02(&c, rapid.IntRange(0, 1000).Draw(t, "pick"), func(err error) { t.Fatalf("harness: %v", err) })
 	return c
 }
@@ -218,6 +227,20 @@ func finishC02(c *C02Case, pick int, fail func(error)) {
 		e := a.Signer
 		a.Embed = &e
 		g.AsrtSig = []*h.SignSpec{a, spec}
+		if c.BigFirst > 0 {
+			vals := make([]string, c.BigFirst)
+			for i := range vals {
+				vals[i] = fmt.Sprintf("group-%d", i)
+			}
+			g.Model.Assertions[0].Attrs = []h.AttrModel{{Name: "groups", Values: vals}}
+			if c.EncFirst {
+				c.SP.Enc = h.KeyCfg{Mode: "tls", Field: h.CertRef{Key: "E1", Window: "long"}}
+				e := &h.EncSpec{DataAlg: h.DataAlgs[pick%len(h.DataAlgs)], Transport: h.Transports[pick%3], Digest: "-", To: h.CertRef{Key: "E1", Window: "long"}}
+				e.Key = make([]byte, h.KeyLen(e.DataAlg))
+				e.IV = make([]byte, map[bool]int{true: 12, false: 16}[h.IsGCM(e.DataAlg)])
+				g.Enc = []*h.EncSpec{e, nil}
+			}
+		}
 		root, err = g.Tree()
 	case "response", "assertion", "both":
 		g := gridGenuine(c.SP, 1, map[string]string{"response": "response", "assertion": "assertions", "both": "both"}[c.Kind])
@@ -276,17 +299,18 @@ func flipB64(s string) string {
 // tamper edits the signed tree after signing.
 func tamper(root *etree.Element, kind, how string) {
 	if kind == "dup" {
-		// everything happens inside the SECOND assertion
+		// everything happens inside the SECOND assertion (the last plaintext one: the first may travel encrypted)
 		as := h.AssertionElements(root)
-		if len(as) < 2 {
+		if len(as) < 1 {
 			return
 		}
+		second := as[len(as)-1]
 		holder := etree.NewElement("holder")
-		idx := as[1].Index()
+		idx := second.Index()
 		root.RemoveChildAt(idx)
-		holder.AddChild(as[1])
+		holder.AddChild(second)
 		tamper(holder, "assertion", how)
-		root.InsertChildAt(idx, as[1])
+		root.InsertChildAt(idx, second)
 		return
 	}
 	switch how {
@@ -361,6 +385,9 @@ func judgeC02(c C02Case, newSP func() *saml2.SAMLServiceProvider) h.Outcome {
 	if !hon {
 		o.Classes = append(o.Classes, "reject:"+strings.SplitN(why, ":", 2)[0])
 	}
+	if c.BigFirst > 0 {
+		o.Classes = append(o.Classes, fmt.Sprintf("big-first:%d/enc:%v", c.BigFirst, c.EncFirst))
+	}
 	type res struct {
 		entry     string
 		err       error
@@ -404,6 +431,11 @@ func judgeC02(c C02Case, newSP func() *saml2.SAMLServiceProvider) h.Outcome {
 		rs = append(rs, x)
 	}
 	for _, r := range rs {
+		if hon && c.BigFirst > 0 && r.err != nil {
+			// a tree beyond the signature library's traversal budget may be refused as a whole: no expectation
+			o.Classes = append(o.Classes, "big-first:refused")
+			continue
+		}
 		if hon {
 			if r.err != nil {
 				o.Violation = h.V("honourable-rejected/"+c.Kind, "%s rejected a signature that must be honoured (signer %v, keyinfo %s, store %v, clock %s): %v", r.entry, c.Signer, c.KeyInfo, c.SP.Store, c.ClockPos, r.err)
@@ -564,6 +596,19 @@ func TestC02_Grid(t *testing.T) {
 			c.SP.Store = []h.CertRef{{Key: "T1", Window: "wide"}}
 			finishC02(&c, 0, func(err error) { t.Fatalf("harness: %v", err) })
 			cases = append(cases, c)
+		}
+	}
+	// a big (and encrypted) well-signed first assertion in front of a badly signed second one
+	for _, n := range []int{300, 990, 1010, 1300} {
+		for _, enc := range []bool{false, true} {
+			for ti, tm := range []string{"content", "digest", "sigvalue", "none"} {
+				for _, signer := range []string{"T1", "A"} {
+					c := C02Case{SP: h.BaseSP(), Kind: "dup", Signer: h.CertRef{Key: signer, Window: "wide"}, KeyInfo: "own", Tamper: tm, ClockPos: "inside", Method: h.RSAMethods[1], C14N: h.C14Ns[0], BigFirst: n, EncFirst: enc}
+					c.SP.Store = []h.CertRef{{Key: "T1", Window: "wide"}}
+					finishC02(&c, ti, func(err error) { t.Fatalf("harness: %v", err) })
+					cases = append(cases, c)
+				}
+			}
 		}
 	}
 	// renewed certificate on the same key (both with a SubjectKeyIdentifier): each member is honoured with
